@@ -499,13 +499,18 @@ pub fn tree_oracle(property: &str, prefix: &str, inv: &Invocation, ex: &Expected
             }
         }
     }
-    for p in run.after.files.keys() {
-        if !run.before.files.contains_key(p) {
-            out.push(v(property, format!("{prefix}/file-created"), p.clone(), idx));
+    // New entries: only check mode promises that nothing is created (C13 / C17 own that, through
+    // no_write_oracle).  In write mode the properties speak about the files that exist — a run
+    // that leaves an extra file behind does not break them — but nothing may disappear.
+    if inv.opts.check {
+        for p in run.after.files.keys() {
+            if !run.before.files.contains_key(p) {
+                out.push(v(property, format!("{prefix}/file-created"), p.clone(), idx));
+            }
         }
     }
-    if run.before.dirs != run.after.dirs {
-        out.push(v(property, format!("{prefix}/directories-changed"), String::new(), idx));
+    if run.before.dirs.iter().any(|d| !run.after.dirs.contains(d)) {
+        out.push(v(property, format!("{prefix}/directory-removed"), String::new(), idx));
     }
     if run.before.links != run.after.links {
         out.push(v(property, format!("{prefix}/symlinks-changed"), format!("{:?} -> {:?}", run.before.links, run.after.links), idx));
